@@ -1,0 +1,10 @@
+//go:build verif
+// +build verif
+
+package p2p
+
+// VerifSessionKey returns the AES session key agreed in the transport handshake, so that a test can craft frames
+// exactly as a remote that completed the handshake could.
+func (p *Peer) VerifSessionKey() []byte {
+	return append([]byte(nil), p.aes...)
+}
